@@ -329,6 +329,107 @@ def ob_hierarchical_distribution():
     return Ob("C10.sample_shape.hierarchical[Distribution,x and loc batched]", "V", body, clause="sample-shape inference: x and parameters both batched", funcs=FUNCS)
 
 
+def _real_models():
+    """name -> (input names, build(inputs dict of tensors) -> CallableModel).  Inputs are given unbatched shapes; the obligation batches
+    one subset at a time."""
+    import torchtree.evolution.coalescent as co
+    import torchtree.distributions.gmrf as gm
+    import torchtree.evolution.bdsk as bd
+    from torchtree.core.parameter import Parameter
+    from specs import treemodels
+    t64 = lambda v: torch.tensor(v, dtype=torch.float64)
+    names = ["A", "B", "C", "D"]
+    tree = ((0, 1), (2, 3))
+    tips = [0.0, 0.5, 0.0, 1.0]
+    base = {"heights": t64([1.2, 2.0, 3.0]), "theta1": t64([2.0]), "theta3": t64([2.0, 3.0, 1.5]), "growth1": t64([0.3]), "growth3": t64([0.3, -0.5, 0.8]),
+            "field": t64([0.3, -0.2, 1.1]), "tau": t64([2.0]), "R": t64([1.5]), "delta": t64([1.0]), "s": t64([0.3]), "rho": t64([0.4]), "origin": t64([5.0])}
+    grid = t64([0.8, 2.1])
+
+    def tm(v):
+        return treemodels.build_timetree(tree, names, tips, v["heights"])[0]
+    P = lambda n, v: Parameter(n, v[n])
+    return base, {
+        "ConstantCoalescentModel": (("heights", "theta1"), lambda v: co.ConstantCoalescentModel("m", P("theta1", v), tm(v))),
+        "ExponentialCoalescentModel": (("heights", "theta1", "growth1"), lambda v: co.ExponentialCoalescentModel("m", P("theta1", v), P("growth1", v), tm(v))),
+        "PiecewiseConstantCoalescentModel": (("heights", "theta3"), lambda v: co.PiecewiseConstantCoalescentModel("m", P("theta3", v), tm(v))),
+        "PiecewiseConstantCoalescentGridModel": (("heights", "theta3"), lambda v: co.PiecewiseConstantCoalescentGridModel("m", P("theta3", v), Parameter("grid", grid.clone()), tm(v))),
+        "PiecewiseExponentialCoalescentGridModel": (("heights", "theta1", "growth3"), lambda v: co.PiecewiseExponentialCoalescentGridModel("m", P("theta1", v), P("growth3", v), Parameter("grid", grid.clone()), tm(v))),
+        "PiecewiseLinearCoalescentGridModel": (("heights", "theta3"), lambda v: co.PiecewiseLinearCoalescentGridModel("m", P("theta3", v), Parameter("grid", grid.clone()), tm(v))),
+        "GMRF": (("field", "tau"), lambda v: gm.GMRF("m", P("field", v), P("tau", v))),
+        "GMRF.timeaware": (("field", "tau", "heights"), lambda v: gm.GMRF("m", P("field", v), P("tau", v), tm(v))),
+        "BDSKModel": (("heights", "R", "delta", "s", "rho", "origin"),
+                      lambda v: bd.BDSKModel("m", tm(v), P("R", v), P("delta", v), P("s", v), rho=P("rho", v), origin=P("origin", v))),
+    }
+
+
+def ob_real_model_sample_shapes():
+    """For every real model and every non-empty subset of its inputs carrying a sample dimension S (the others unbatched): either the
+    combination raises, or (i) the value has one entry per sample, equal to the value of the model built from the s-th slices, (ii) the model
+    REPORTS that sample shape (sample_shape is what JointDistributionModel uses to choose its reduction), and (iii) a joint holding only this
+    model returns exactly those per-sample values."""
+    def body():
+        from torchtree.distributions.joint_distribution import JointDistributionModel
+        base, models = _real_models()
+        n, raised, bad = 0, [], []
+        for mname, (inputs, build) in models.items():
+            for S in (2, 3):
+                for r in range(1, len(inputs) + 1):
+                    for sub in itertools.combinations(inputs, r):
+                        vals = {}
+                        for k in inputs:
+                            if k in sub:
+                                # distinct values per sample (keeps heights ordered / rates positive)
+                                vals[k] = torch.stack([base[k] * (1.0 + 0.17 * i) for i in range(S)])
+                            else:
+                                vals[k] = base[k].clone()
+                        try:
+                            m = build(vals)
+                            v = m()
+                        except Exception as e:
+                            raised.append("%s%s" % (mname, list(sub)))
+                            continue
+                        n += 1
+                        want = []
+                        for i in range(S):
+                            sl = {k: (vals[k][i] if k in sub else vals[k]) for k in inputs}
+                            want.append(build(sl)().reshape(-1).sum())
+                        want = torch.stack(want)
+                        tag = "%s, S=%d, batched inputs %s" % (mname, S, list(sub))
+                        if v.shape[:1] != (S,):
+                            bad.append("%s: value has shape %s" % (tag, tuple(v.shape)))
+                            continue
+                        got = v.reshape(S, -1).sum(-1)
+                        if not torch.allclose(got, want, rtol=1e-9, atol=1e-11):
+                            bad.append("%s: per-sample values %s, values of the slices %s" % (tag, got.tolist(), want.tolist()))
+                            continue
+                        if tuple(m.sample_shape) != (S,):
+                            bad.append("%s: sample_shape reported as %s" % (tag, tuple(m.sample_shape)))
+                            continue
+                        try:
+                            j = JointDistributionModel("j", [build(vals)])()
+                        except Exception as e:
+                            bad.append("%s: the model evaluates but a joint holding it raises %s: %s" % (tag, type(e).__name__, str(e)[:80]))
+                            continue
+                        if tuple(j.shape) != (S,) or not torch.allclose(j, want, rtol=1e-9, atol=1e-11):
+                            bad.append("%s: joint returns %s (shape %s), per-sample values are %s" % (tag, j.tolist(), tuple(j.shape), want.tolist()))
+        if bad:
+            raise Refuted("real models with partially batched inputs: " + " | ".join(bad[:3]), witness={"failures": bad[:10]},
+                          replay={"kind": "custom", "contract": "C10", "func": "replay_real_model_sample_shapes", "args": {}}, confirmed=True)
+        if n == 0:
+            raise Undecided("no combination evaluated")
+        return {"backend": "heap", "cases": n, "raised": "%d combinations raise (accepted): %s" % (len(raised), raised[:6]),
+                "statement": "%d (model, batched-input subset, S) combinations: per-sample values = values of the slices; sample_shape reported; joint agrees" % n}
+    return Ob("C10.sample_shape.real_models", "B", body, clause="a model whose inputs are only partly batched still reports the sample shape and a joint does not add across samples", funcs=FUNCS)
+
+
+def replay_real_model_sample_shapes(args):
+    try:
+        ob_real_model_sample_shapes().fn()
+    except Refuted as e:
+        return False, e.detail
+    return True, "held"
+
+
 def replay_hierarchical(args):
     try:
         ob_hierarchical_distribution().fn()
@@ -375,6 +476,11 @@ def obligations(tier, seed):
     # GMRF
     for b in shapes[:5]:
         add("C10.gmrf.plain[N=4,batch=%s]" % (b,), "C20", "scn_gmrf", ("plain", 4, b), ("plain", 4, ()), "density_is_quadratic_form_of_published_precision", b)
+    # time-aware GMRF: field, precision AND node heights batched (rescaling by the root height of the SAME sample); incl. S = number of differences
+    for N_, b in ((3, (2,)), (4, (3,)), (3, (3,)), (4, (2,))):
+        add("C10.gmrf.timeaware[N=%d,batch=%s,heights batched]" % (N_, b), "C20", "scn_gmrf", ("timeaware_hb", N_, b), ("timeaware", N_, ()), "density_is_quadratic_form_of_published_precision", b)
+    add("C10.gmrf.timeaware[N=3,batch=(2,),heights fixed]", "C20", "scn_gmrf", ("timeaware", 3, (2,)), ("timeaware", 3, ()), "density_is_quadratic_form_of_published_precision", (2,))
+    add("C10.gmrf.weighted[N=4,batch=(3,)]", "C20", "scn_gmrf", ("weighted", 4, (3,)), ("weighted", 4, ()), "density_is_quadratic_form_of_published_precision", (3,))
     # transforms
     for b in shapes[:5]:
         for kind in ("cumsum", "cumsumexp", "softplus", "cumsumsoftplus", "log"):
@@ -402,5 +508,6 @@ def obligations(tier, seed):
             obs.append(scenario_ob("C10", "C10.joint[sample=%s,components=%s]" % (b, cs), "V", "scn_joint", (b, cs),
                                    clause="joint adds components of the same sample only", funcs=FUNCS, seed=seed))
     obs.append(ob_sample_shape_helpers())
+    obs.append(ob_real_model_sample_shapes())
     obs.append(ob_hierarchical_distribution())
     return obs
